@@ -3,8 +3,8 @@ CONSTANTS
   Protos = {10, 11}
   Methods = {"GET", "HEAD"}
   Conns = {"none", "keepalive", "close"}
-  Statuses = {200, 201, 204, 304, 404, 500}
-  Bodies = {"none", "empty", "str", "bytes", "list", "big", "gen", "genWithEmpty", "genEmptyMid", "genAllEmpty", "genBig", "file", "trickle", "stream", "yield", "error"}
+  Statuses = {200, 201, 203, 204, 205, 206, 300, 304, 404, 500}
+  Bodies = {"none", "empty", "str", "bytes", "list", "big", "gen", "genWithEmpty", "genEmptyMid", "genAllEmpty", "genBig", "file", "fileCL", "trickle", "stream", "yield", "error"}
   Flags = {TRUE, FALSE}
   Spells = {"canon", "title", "upper", "list"}
   Wins = {0, 1, 4000}
@@ -13,7 +13,7 @@ CONSTANTS
   SeqBodies = {"none", "str", "genWithEmpty", "file", "stream", "error"}
   SeqSpells = {"canon", "upper", "list"}
   MaxReq = 2
-  DefectChoices = {{}}
+  DefectChoices = {{}, {"unsized205"}}
 INVARIANT TypeOK
 INVARIANT IConforms
 INVARIANT IFramed
